@@ -55,3 +55,23 @@ func TestC04Widths(t *testing.T) {
 		}
 	})
 }
+
+// DS rows name their operands (R04.24).
+func TestC04DSOperands(t *testing.T) {
+	// DS: 110110 op[24:17] gds[16] offset1[15:8] offset0[7:0] ; vdst[63:56] data1[55:48] data0[47:40] addr[39:32]
+	// ds_read_u8 v5, v1 (opcode 58)
+	inst := c04decode(t, 0xD8000000|58<<17, 5<<24|1)
+	if inst.Dst == nil {
+		t.Errorf("%s decodes without a destination (the printer dereferences it)", inst.InstName)
+	}
+	// ds_write_b64 v1, v[2:3] (opcode 77)
+	inst = c04decode(t, 0xD8000000|77<<17, 2<<8|1)
+	if inst.Data == nil || inst.Data.RegCount != 2 {
+		t.Errorf("%s decodes without its 64-bit data operand", inst.InstName)
+	}
+	// ds_add_rtn_u32 v4, v1, v2 (opcode 32)
+	inst = c04decode(t, 0xD8000000|32<<17, 4<<24|2<<8|1)
+	if inst.Data == nil || inst.Dst == nil {
+		t.Errorf("%s decodes without data / destination", inst.InstName)
+	}
+}
